@@ -152,7 +152,11 @@ class Monitor(object):
       if npar != (0 if nm == 'get_state' else 1):
         self.bad(kind + ':%s-arity' % nm, npar)
         return
-    st = get_state()
+    try:
+      st = get_state()
+    except Exception as e:  # noqa
+      self.bad(kind + ':get_state-raises', {'names': symbol_names, 'exc': repr(e)[:200]})
+      return
     if not isinstance(st, tuple):
       self.bad(kind + ':get_state-not-tuple', repr(type(st)))
       return
@@ -180,7 +184,12 @@ class Monitor(object):
         self.bad(kind + ':state-position-denotes-other-variable', {'name': n, 'frame_value': repr(v)[:80], 'state_value': repr(st[i])[:80]})
         return
     # reading has no effect
-    st2 = get_state()
+    try:
+      st2 = get_state()
+      set_state(st2) if False else None
+    except Exception as e:  # noqa
+      self.bad(kind + ':get_state-raises', {'names': symbol_names, 'exc': repr(e)[:200]})
+      return
     if len(st2) != len(st) or not all(_same(a, b) for a, b in zip(st, st2)):
       self.bad(kind + ':get_state-not-idempotent', {'names': symbol_names})
       return
@@ -192,8 +201,12 @@ class Monitor(object):
       return
     self.stats['write_laws_checked'] += 1
     # write back what was read: nothing changes
-    set_state(st)
-    st3 = get_state()
+    try:
+      set_state(st)
+      st3 = get_state()
+    except Exception as e:  # noqa
+      self.bad(kind + ':set_state-raises', {'names': symbol_names, 'exc': repr(e)[:200]})
+      return
     if not all(_same(a, b) for a, b in zip(st, st3)):
       self.bad(kind + ':set_state(get_state())-changes-state', {'names': symbol_names})
       return
@@ -250,7 +263,16 @@ class Monitor(object):
     if want is None:
       want = {}
     if extra != want:
-      self.bad(kind + ':directives-differ-from-source', {'loop': key, 'opts': repr(extra), 'source': repr(want)})
+      f = sys._getframe(2)
+      try:
+        gen = '%s:%d %s' % (f.f_code.co_filename, f.f_lineno, f.f_code.co_name)
+        import linecache
+        gen += ' | ' + linecache.getline(f.f_code.co_filename, f.f_lineno).strip()[:300]
+        orig = getattr(f.f_globals.get('__name__'), 'x', None)
+        gen += ' | module=' + str(f.f_globals.get('__name__')) + ' file=' + str(f.f_globals.get('__file__'))
+      except Exception as e:  # noqa
+        gen = repr(e)
+      self.bad(kind + ':directives-differ-from-source', {'loop': key, 'opts': repr(extra), 'source': repr(want), 'where': gen})
 
   # ---- operators
   def if_stmt(self, cond, body, orelse, get_state, set_state, symbol_names, nouts):
